@@ -4,6 +4,7 @@ package main
 // typestate / block rotation / matcher guards (C01, C17).
 
 import (
+	"sort"
 	"fmt"
 	"go/token"
 	"go/types"
@@ -118,6 +119,7 @@ func ruleMultiStream(c *Ctx, r *Report, prefix string) {
 				}
 			}
 		}
+		sort.SliceStable(rf, func(i, j int) bool { return effectivePos(nsr, rf[i], 0) < effectivePos(nsr, rf[j], 0) })
 		okReads := len(rf) == 2 && instrOrder(rf[0], rf[1])
 		if okReads {
 			a, _ := sliceRefOf(rf[0].Call.Args[1])
